@@ -81,7 +81,7 @@ def run_impl(case):
         except Exception as e:
             return {'write': ['err', tables.err_code(e)]}
         tree, comp = U.raw_tree(path)
-        out = {'write': 'ok', 'file': tree, 'compression': comp}
+        out = {'write': 'ok', 'file': tree, 'compression': comp, 'in_domain': U.in_domain(case)}
         out['load_table'] = _load(lambda: biom.load_table(path))
 
         def via_handle():
@@ -120,6 +120,7 @@ def decode(tree, case):
     ld = lambda t: ['err', t[1], None] if t[0] == -1 else U.dec_loaded(t[1])
     samp, obs = ld(tree[1]), ld(tree[2])
     return {'write': 'ok', 'file': U.dec_h5(w[1]), 'compression': ['gzip' if case['compress'] else 'none'],
+            'in_domain': bool(tree[3]),
             'load_table': samp, 'parse_table': samp,
             'from_hdf5': obs if case.get('h5_axis', 'sample') == 'observation' else samp}
 
@@ -222,6 +223,7 @@ def classify(case):
     if case.get('kind', 'table') == 'table':
         tags.append(U.layout_tag(_state(case)))
         tags.append('h5_axis:%s' % case.get('h5_axis'))
+        tags.append('theorem-domain:%s' % ('inside' if U.in_domain(case) else 'outside'))
     return tags
 
 
